@@ -297,6 +297,8 @@ func chainFilters() []filt {
 		{"upper", nil}, {"lower", nil}, {"capfirst", nil}, {"cut", []string{`" "`, "q"}}, {"add", []string{`"x"`, "2", "two"}},
 		{"length", nil}, {"default", []string{`"d"`}}, {"truncatechars", []string{"4"}}, {"first", nil}, {"last", nil},
 		{"slice", []string{`"1:3"`}}, {"center", []string{"7"}}, {"wordcount", nil}, {"join", []string{`"-"`, "sep"}},
+		// filters whose result depends on an OPTIONAL parameter, written with and without it
+		{"floatformat", []string{"", "2"}}, {"yesno", []string{"", `"a,b,c"`}}, {"pluralize", []string{"", `"es"`}},
 	}
 }
 
@@ -308,10 +310,10 @@ func run(r *eng.Runner) {
 			calls = append(calls, FC{Name: f.name})
 		}
 		for _, a := range f.args {
-			calls = append(calls, FC{Name: f.name, Arg: a})
+			calls = append(calls, FC{Name: f.name, Arg: a}) // a == "" : written without parameter
 		}
 	}
-	inputs := []string{"s", "l", "n", "e", "missing", `"Lit q"`, "7", "m.k", "fn()"}
+	inputs := []string{"s", "l", "n", "e", "missing", `"Lit q"`, "7", "m.k", "fn()", `"12.34"`, "1"}
 	positions := []string{"output", "if", "for", "with", "set", "macro-arg", "macro-default", "filter-tag", "scoped-arg", "subscript", "binds-tighter"}
 	maxLen := 3
 	if !r.Quick() {
@@ -324,7 +326,7 @@ func run(r *eng.Runner) {
 			chain[i] = calls[x]
 		}
 		for _, in := range inputs {
-			if len(idx) == maxLen && maxLen >= 3 && in != "s" && in != "l" && in != "n" {
+			if len(idx) == maxLen && maxLen >= 3 && in != "s" && in != "l" && in != "n" && in != `"12.34"` {
 				continue // the longest chains on the three main inputs only
 			}
 			r.Do(&Case{Chain: chain, Input: in, Pos: "output"})
@@ -351,6 +353,9 @@ func run(r *eng.Runner) {
 			}
 			r.Do(&Case{Chain: []FC{{Name: f, Arg: a}}, Input: "s", Pos: "filter-tag"})
 			r.Do(&Case{Chain: []FC{{Name: f, Arg: a}, {Name: "upper"}}, Input: "s", Pos: "filter-tag"})
+			// a parameterless filter directly after a parameterised one (its parameter must not be inherited)
+			r.Do(&Case{Chain: []FC{{Name: "cut", Arg: `"0"`}, {Name: f, Arg: a}}, Input: "s", Pos: "filter-tag"})
+			r.Do(&Case{Chain: []FC{{Name: "add", Arg: "2"}, {Name: f, Arg: a}}, Input: "n", Pos: "output"})
 		}
 	}
 
